@@ -943,6 +943,120 @@ theorem SE3_exp_log_act_all (eps : ℝ) (X : SE3 ℝ) (p : Vec3 ℝ) (hq : X.q.n
   rw [e]; exact h
 
 
+/-- `so3_log_exp_small` with the sign of the defect: `−θ⁴/50 ≤ δ ≤ 0` (the recovered vector is never longer than `x`, so it stays in
+the Taylor branch of `so3_Jl_inv`) -/
+theorem so3_log_exp_small_signed (eps : ℝ) (x : Vec3 ℝ) (h0 : 0 ≤ eps) (he1 : eps ≤ 1) (h : ¬ eps < x.norm) :
+    ∃ δ : ℝ, so3LogExp eps x = x.smul (1 + δ) ∧ -(x.normSq ^ 2 / 50) ≤ δ ∧ δ ≤ 0 := by
+  have hθ0 := Vec3.norm_nonneg x
+  have hθ : x.norm ≤ eps := not_lt.mp h
+  have hn : x.norm * x.norm = x.normSq := Vec3.norm_sq x
+  have hn0 : 0 ≤ x.normSq := Vec3.normSq_nonneg x
+  have hn1 : x.normSq ≤ 1 := by rw [← hn]; nlinarith
+  have hE := so3Exp_taylor eps x h
+  generalize hc : 1 / 2 - 1 / 48 * x.normSq + 1 / 3840 * (x.normSq * x.normSq) = c at hE
+  generalize hw : 1 - 1 / 8 * x.normSq + 1 / 384 * (x.normSq * x.normSq) = w at hE
+  have hc0 : 0 < c := by rw [← hc]; nlinarith
+  have hc1 : c ≤ 1 / 2 + 1 / 3840 := by rw [← hc]; nlinarith
+  have hw0 : 7 / 8 ≤ w := by rw [← hw]; nlinarith
+  have hw1 : w ≤ 1 + 1 / 384 := by rw [← hw]; nlinarith
+  have hvn : (so3Exp eps x).vec.norm = c * x.norm := by
+    rw [hE, Quat.mk'_vec, Vec3.norm_smul, abs_of_pos hc0]
+  have hr3 : ¬ eps < (so3Exp eps x).vec.norm := by rw [hvn]; nlinarith
+  refine ⟨c * (2 * (1 / w - c * x.norm * (c * x.norm) / (3 * (w * w * w)))) - 1, ?_, ?_⟩
+  · unfold so3LogExp
+    rw [SO3Log_r3 eps _ hr3, hvn, hE, Quat.mk'_vec, Quat.mk'_w, Vec3.smul_smul]
+    congr 1; ring
+  · have hw3 : 0 < 3 * (w * w * w) := by positivity
+    have key : c * (2 * (1 / w - c * x.norm * (c * x.norm) / (3 * (w * w * w)))) - 1
+        = (6 * c * (w * w) - 2 * x.normSq * (c * c * c) - 3 * (w * w * w)) / (3 * (w * w * w)) := by
+      rw [← hn]; field_simp; ring
+    have hN : 6 * c * (w * w) - 2 * x.normSq * (c * c * c) - 3 * (w * w * w)
+        = -(x.normSq ^ 2 * ((x.normSq ^ 5 + 960 * x.normSq ^ 4 - 138240 * x.normSq ^ 3 + 6860800 * x.normSq ^ 2
+            - 143769600 * x.normSq + 1061683200) / 28311552000)) := by
+      rw [← hc, ← hw]; ring
+    rw [key, hN]
+    generalize x.normSq = n at hn0 hn1 ⊢
+    have p5 : n ^ 5 ≤ n := pow_le_of_le_one hn0 hn1 (by norm_num)
+    have p4 : n ^ 4 ≤ n := pow_le_of_le_one hn0 hn1 (by norm_num)
+    have p3 : n ^ 3 ≤ n := pow_le_of_le_one hn0 hn1 (by norm_num)
+    have p2 : n ^ 2 ≤ n := pow_le_of_le_one hn0 hn1 (by norm_num)
+    have q5 : 0 ≤ n ^ 5 := by positivity
+    have q4 : 0 ≤ n ^ 4 := by positivity
+    have q3 : 0 ≤ n ^ 3 := by positivity
+    have q2 : 0 ≤ n ^ 2 := by positivity
+    obtain ⟨Q, hQ⟩ : ∃ Q, Q = (n ^ 5 + 960 * n ^ 4 - 138240 * n ^ 3 + 6860800 * n ^ 2 - 143769600 * n + 1061683200) / 28311552000 :=
+      ⟨_, rfl⟩
+    have hQ0 : 0 ≤ Q := by rw [hQ]; apply div_nonneg _ (by norm_num); linarith only [q5, q4, q2, p3, hn1, hn0]
+    have hQ1 : Q ≤ 3 / 80 := by rw [hQ, div_le_iff₀ (by norm_num)]; linarith only [p5, p4, p2, q3, hn0]
+    rw [← hQ]
+    have hww : (49 : ℝ) / 64 ≤ w * w := by nlinarith only [hw0]
+    have hwww : (343 : ℝ) / 512 ≤ w * w * w := by
+      have := mul_le_mul hww hw0 (by norm_num) (by positivity)
+      linarith only [this]
+    have hw3' : (2 : ℝ) ≤ 3 * (w * w * w) := by linarith only [hwww]
+    have hnq : 0 ≤ n ^ 2 * Q := mul_nonneg q2 hQ0
+    have h1 : n ^ 2 * Q ≤ n ^ 2 * (3 / 80) := mul_le_mul_of_nonneg_left hQ1 q2
+    have h2 : n ^ 2 / 50 * 2 ≤ n ^ 2 / 50 * (3 * (w * w * w)) := mul_le_mul_of_nonneg_left hw3' (by positivity)
+    constructor
+    · rw [neg_div, neg_le_neg_iff, div_le_iff₀ hw3]
+      linarith only [h1, h2, q2]
+    · rw [neg_div]
+      exact neg_nonpos.mpr (div_nonneg hnq (le_of_lt hw3))
+
+
+/-- `Log (Exp ξ)` on se3 for rotations by at most `eps` (Taylor branches of `so3_Exp`, `so3_Jl`, `so3_Jl_inv`, regime 3 of `SO3_Log`):
+the rotation block is `(1+δ)·φ` with `|δ| ≤ θ⁴/50` and the translation block misses `τ` by at most `θ⁴‖τ‖/26`
+(`‖τ' − τ‖² ≤ θ⁸‖τ‖²/700`) — the clause "Log(Exp x) = x, angles dense near 0" for SE3, translation included. -/
+theorem se3_log_exp_small (eps : ℝ) (x : se3 ℝ) (h0 : 0 ≤ eps) (he1 : eps ≤ 1) (h : ¬ eps < x.phi.norm) :
+    ∃ δ : ℝ, (se3LogExp eps x).phi = x.phi.smul (1 + δ) ∧ |δ| ≤ x.phi.normSq ^ 2 / 50 ∧
+      ((se3LogExp eps x).tau.sub x.tau).normSq ≤ x.phi.normSq ^ 4 / 700 * x.tau.normSq := by
+  obtain ⟨δ, hφ, hd1, hd0⟩ := so3_log_exp_small_signed eps x.phi h0 he1 h
+  have hθ0 := Vec3.norm_nonneg x.phi
+  have hθ : x.phi.norm ≤ eps := not_lt.mp h
+  have hn0 : 0 ≤ x.phi.normSq := Vec3.normSq_nonneg x.phi
+  have hn1 : x.phi.normSq ≤ 1 := by rw [← Vec3.norm_sq]; nlinarith
+  have hn2 : x.phi.normSq ^ 2 ≤ 1 := by nlinarith
+  have hc0 : 0 ≤ 1 + δ := by nlinarith
+  have hθ' : ¬ eps < (x.phi.smul (1 + δ)).norm := by
+    rw [Vec3.norm_smul, abs_of_nonneg hc0]; nlinarith
+  refine ⟨δ, hφ, by rw [abs_le]; constructor <;> linarith, ?_⟩
+  have htau : (se3LogExp eps x).tau = (so3JlInv eps (so3LogExp eps x.phi)).mulVec ((so3Jl eps x.phi).mulVec x.tau) := rfl
+  rw [htau, hφ, so3JlInv_taylor eps _ hθ', polyK_smul_arg, so3Jl_taylor eps _ h, ← Mat3.mul_mulVec, polyK_mul, show (1 : ℝ) * 1 = 1 from one_mul 1, polyK_mulVec_sub]
+  obtain ⟨hB, hC⟩ := jl_taylor_pert_coefs x.phi.normSq δ hn0 hn1 hd0 hd1
+  have ht0 := Vec3.normSq_nonneg x.tau
+  have c1 := Vec3.cross_normSq_le x.phi x.tau
+  have c2 := Vec3.cross_normSq_le x.phi (x.phi.cross x.tau)
+  have c1n := Vec3.normSq_nonneg (x.phi.cross x.tau)
+  have c2n := Vec3.normSq_nonneg (x.phi.cross (x.phi.cross x.tau))
+  refine le_trans (Vec3.add_normSq_le _ _) ?_
+  rw [Vec3.normSq_smul, Vec3.normSq_smul]
+  generalize x.phi.normSq = n at *
+  generalize x.tau.normSq = T at *
+  generalize (x.phi.cross x.tau).normSq = A at *
+  generalize (x.phi.cross (x.phi.cross x.tau)).normSq = Bn at *
+  generalize 1 * (1 / 2 - 1 / 24 * n) + -(1 / 2) * (1 + δ) * 1 -
+        n * (-(1 / 2) * (1 + δ) * (1 / 6 - 1 / 120 * n) + 1 / 12 * ((1 + δ) * (1 + δ)) * (1 / 2 - 1 / 24 * n)) = b at *
+  generalize 1 * (1 / 6 - 1 / 120 * n) + 1 / 12 * ((1 + δ) * (1 + δ)) * 1 + -(1 / 2) * (1 + δ) * (1 / 2 - 1 / 24 * n) -
+        n * (1 / 12 * ((1 + δ) * (1 + δ)) * (1 / 6 - 1 / 120 * n)) = c at *
+  have hb2 : b * b ≤ (n ^ 2 / 40) * (n ^ 2 / 40) := by
+    have := abs_mul_abs_self b
+    have h1 := mul_le_mul hB hB (abs_nonneg b) (by positivity)
+    linarith
+  have hc2 : c * c ≤ (n / 200) * (n / 200) := by
+    have := abs_mul_abs_self c
+    have h1 := mul_le_mul hC hC (abs_nonneg c) (by positivity)
+    linarith
+  have hBn : Bn ≤ n * (n * T) := by nlinarith
+  have t1 : b * b * A ≤ (n ^ 2 / 40) * (n ^ 2 / 40) * (n * T) := mul_le_mul hb2 c1 c1n (by positivity)
+  have t2 : c * c * Bn ≤ (n / 200) * (n / 200) * (n * (n * T)) := mul_le_mul hc2 hBn c2n (by positivity)
+  have hn5 : n ^ 5 * T ≤ n ^ 4 * T := by
+    have : n ^ 5 = n ^ 4 * n := by ring
+    rw [this]
+    have h4 : 0 ≤ n ^ 4 * T := mul_nonneg (by positivity) ht0
+    nlinarith [mul_le_mul_of_nonneg_left hn1 h4]
+  have hn4T : 0 ≤ n ^ 4 * T := mul_nonneg (by positivity) ht0
+  nlinarith
+
 /-- pure translations / identity of SE3 (`v = 0`, either sign of `w`): `Log (X⁻¹) = −Log X = (−t, 0)` exactly -/
 theorem SE3_log_inv_pure_translation (eps : ℝ) (X : SE3 ℝ) (hq : X.q.normSq = 1) (h0 : 0 ≤ eps) (hv : X.q.vec.norm = 0) :
     SE3LogInv eps X = se3.neg (SE3Log eps X) := by
@@ -1538,6 +1652,13 @@ example (p : Vec3 ℝ) : ((Sim3Act (Sim3ExpLog (1 / 1000) ⟨⟨1, 2, 3⟩, qPi,
   Sim3_exp_log_act_all _ ⟨⟨1, 2, 3⟩, qPi, 2⟩ p qPi_unit (by norm_num) (by norm_num) (by norm_num)
     (by rw [SO3_log_norm_eq_pi _ _ (by norm_num) qPi_v qPi_w]; linarith [Real.pi_gt_three])
 example : (se3LogExp (1 / 1000) ⟨⟨1, 2, 3⟩, x1⟩).phi = so3LogExp (1 / 1000) x1 := (log_exp_rot_blocks _).1 _
+
+example : ∃ δ : ℝ, (se3LogExp (1 / 1000) ⟨⟨1, 2, 3⟩, ⟨1 / 2000, 0, 0⟩⟩).phi = (⟨1 / 2000, 0, 0⟩ : Vec3 ℝ).smul (1 + δ) ∧
+    |δ| ≤ (⟨1 / 2000, 0, 0⟩ : Vec3 ℝ).normSq ^ 2 / 50 ∧
+    ((se3LogExp (1 / 1000) ⟨⟨1, 2, 3⟩, ⟨1 / 2000, 0, 0⟩⟩).tau.sub ⟨1, 2, 3⟩).normSq
+      ≤ (⟨1 / 2000, 0, 0⟩ : Vec3 ℝ).normSq ^ 4 / 700 * (⟨1, 2, 3⟩ : Vec3 ℝ).normSq :=
+  se3_log_exp_small (1 / 1000) ⟨⟨1, 2, 3⟩, ⟨1 / 2000, 0, 0⟩⟩ (by norm_num) (by norm_num)
+    (by show ¬ (1 / 1000 : ℝ) < (⟨1 / 2000, 0, 0⟩ : Vec3 ℝ).norm; rw [Vec3.norm_axis _ (by norm_num)]; norm_num)
 
 end NonVacuity
 
